@@ -27,7 +27,8 @@ EXPLANATION = (
     'outside its arguments".  NOT decided: that the mask test succeeds exactly when the leading prefix-length '
     'bits are equal, the prefix length / network bits produced for CIDR and wildcard texts, agreement with the '
     'standard parser - all statements about values.  One table clause of the value part is decided: (TAB.1) the '
-    'prefix offset of an embedded dotted quad is the same constant 8*(16-4) at both sites that add it.')
+    'prefix offset of an embedded dotted quad is the same constant 8*(16-4) at both sites that add it.'
+    ' Rounds 8-9: (TAB.8) where the parser reports 128 bits and succeeds it has seen that no /n follows; (INIT.3) the rule table starts out zeroed.')
 ASSUMPTIONS = [
     'clang 14 front end / CFG; integer types as on the build host (LP64)',
     'callers pass a valid NUL-terminated string and a valid irc_inaddr (checked for the daemon\'s own call sites by C06/C08 bounded-copy rules)',
